@@ -160,5 +160,3 @@ func cmdList(args []string) {
 	}
 }
 
-func cmdCheck(args []string)  { die("check: not built yet") }
-func cmdReplay(args []string) { die("replay: not built yet") }
